@@ -64,8 +64,18 @@ func (b *opBody) subscribe(k int) {
 	e := &entry{kind: k, live: true}
 	b.w.Entries = append(b.w.Entries, e)
 	cb := func(ev sse.Event) {
+		if ev.Data == "" {
+			// the type-only chunk, if dispatched at all: only to callbacks matching its type
+			if !e.matches(ev.Type) {
+				e.got = append(e.got, -1)
+			}
+			return
+		}
 		var n int
 		fmt.Sscanf(ev.Data, "%d", &n)
+		if !e.matches(ev.Type) {
+			n = -n // delivered under a type this callback did not subscribe to
+		}
 		e.got = append(e.got, n)
 	}
 	var rm sse.EventCallbackRemover
@@ -88,10 +98,15 @@ func (b *opBody) step() (ev string, done bool) {
 	if b.nops >= b.maxOps {
 		return "", true
 	}
-	n := len(kinds) + len(evTypes) + len(b.removers) + 1
+	n := len(kinds) + len(evTypes) + len(b.removers) + 2
 	k := vrt.Choose(n, "operation")
 	b.nops++
 	switch {
+	case k == n-2:
+		// a chunk that only names a type (a keep-alive "event: a" + blank line). Whether it is dispatched as an
+		// event without data is not this property's business; the type must not stick to the next event.
+		b.w.Ops = append(b.w.Ops, `chunk "event: a" without data`)
+		return "\nevent: a\n\n:", false
 	case k < len(kinds):
 		b.w.Ops = append(b.w.Ops, kinds[k])
 		b.subscribe(k)
@@ -111,7 +126,7 @@ func (b *opBody) step() (ev string, done bool) {
 		// the trailing ':' lets the scanner see that the blank line is complete; it opens a comment line that
 		// the next chunk closes
 		return fmt.Sprintf("\n%sdata: %d\n\n:", s, b.nev), false
-	case k < n-1:
+	case k < n-2:
 		i := k - len(kinds) - len(evTypes)
 		b.w.Ops = append(b.w.Ops, fmt.Sprintf("remover#%d()", i))
 		b.removers[i]()
@@ -175,6 +190,9 @@ func seqBody(maxOps int, before bool) func() {
 				e.want = nil
 			}
 			for i := range b.events {
+				if !strings.Contains(b.events[i], "data: ") {
+					continue // the type-only chunk: nothing is owed for it
+				}
 				var t string
 				if j := strings.Index(b.events[i], "event: "); j >= 0 {
 					t = strings.SplitN(b.events[i][j+7:], "\n", 2)[0]
@@ -374,6 +392,16 @@ func concScenario(p ConcParams) func() {
 				c := mk("R", 3)
 				rm := sub(c)
 				hs = append(hs, vrt.GoNamed("R", func() { remove(c, rm) }))
+			case 'T': // subscribed before Connect; two threads call the same unsubscribe function at once
+				c := mk("T", 3)
+				rm := sub(c)
+				for _, tn := range []string{"T1", "T2"} {
+					hs = append(hs, vrt.GoNamed(tn, func() {
+						c.removing.Poke(1)
+						rm()
+						c.removed.Poke(1) // whichever call returns first: from then on no invocation
+					}))
+				}
 			case 'M': // subscribed to unnamed events before Connect, removed and re-subscribed concurrently
 				c := mk("M", 2)
 				rm := sub(c)
@@ -424,7 +452,7 @@ func Scenarios(tier string) []run.Scenario {
 	// the same with every map order in one dispatch, one level shallower
 	out = append(out, run.Scenario{Name: fmt.Sprintf("sequences-depth%d-one-order-deviation", depth-1), Body: seqBody(depth-1, false), Check: seqCheck, Sig: sig, Summary: seqSummary,
 		Opts: vrt.Options{PreemptBound: -1, FaultBound: -1, OrderBound: 1, Prune: false}})
-	for _, actors := range []string{"A", "B", "R", "M", "AB", "AR", "BR", "RM"} {
+	for _, actors := range []string{"A", "B", "R", "M", "T", "AB", "AR", "BR", "RM"} {
 		for _, slow := range []bool{false, true} {
 			if tier != "thorough" && len(actors) > 1 && !slow {
 				continue
@@ -442,7 +470,7 @@ func Scenarios(tier string) []run.Scenario {
 
 var Check = &run.Check{
 	ID: "C13", Level: "model_checking",
-	Rule: "Sequential: the explorer chooses EVERY sequence of <= 5 (thorough 6) operations from {SubscribeEvent(a), SubscribeEvent(b), SubscribeMessages, SubscribeToAll, call any remover returned so far (also repeatedly and stale), deliver an event of type '', a, b, c}, performed on the Connect goroutine between two events (inside the response body's Read) or all before Connect; a list model of live subscriptions prescribes each callback's exact event sequence. Concurrent: Connect dispatching 2-3 events while threads subscribe, remove, remove twice, re-subscribe and call a stale remover, with fast and slow (yielding) callbacks; all interleavings of the instrumented RWMutex operations and all map orders (state-key pruning); online oracle: no invocation after the remover returned, exactly once for callbacks that were subscribed at hand-over and not yet being removed when the dispatch ended, per-callback stream order.",
+	Rule: "Sequential: the explorer chooses EVERY sequence of <= 5 (thorough 6) operations from {SubscribeEvent(a), SubscribeEvent(b), SubscribeMessages, SubscribeToAll, call any remover returned so far (also repeatedly and stale), deliver an event of type '', a, b, c, deliver a chunk that only names a type}, performed on the Connect goroutine between two events (inside the response body's Read) or all before Connect; a list model of live subscriptions prescribes each callback's exact event sequence. Concurrent: Connect dispatching 2-3 events while threads subscribe, remove, remove twice, re-subscribe, call a stale remover, and call one remover from two threads at once, with fast and slow (yielding) callbacks; all interleavings of the instrumented RWMutex operations and all map orders (state-key pruning); online oracle: no invocation after the remover returned, exactly once for callbacks that were subscribed at hand-over and not yet being removed when the dispatch ended, per-callback stream order.",
 	Assumptions: []string{
 		"data races on plain memory are outside the scheduler's view (DESIGN.md 2.1 and 8); the mutex discipline is explored at lock granularity",
 	},
